@@ -18,6 +18,10 @@ import (
 
 const decoderCap = 1024 * 1024 // consensus.maxMsgSizeBytes
 
+// allocBound: a single read request (= allocation) of the decoder beyond this is reported. It is the decoder's
+// documented 1 MiB cap plus room for the WAL envelope around the largest message the reactor accepts.
+const allocBound = decoderCap + 4096
+
 // one root cause, one key: a record whose payload is larger than the decoder's cap is written without complaint
 // and can then neither be read nor be searched past
 const keyOversize = "written-record-exceeds-decoder-cap(encoder-has-no-size-limit)"
@@ -164,7 +168,7 @@ func (c *capReader) Read(p []byte) (int, error) {
 	if len(p) > c.max {
 		c.max = len(p)
 	}
-	if len(p) > decoderCap {
+	if len(p) > allocBound {
 		return 0, errBeyondCap
 	}
 	return c.rd.Read(p)
@@ -288,8 +292,8 @@ func checkRead(L *layout, d damage, o readOut, from int, who string) []viol {
 	if o.panicked != "" {
 		vs = append(vs, viol{"decode:panic:" + d.class, fmt.Sprintf("%s: decoder panics on a %s image: %s", who, d.class, o.panicked)})
 	}
-	if o.maxRead > decoderCap {
-		vs = append(vs, viol{"decode:read-beyond-1MiB-cap:" + d.class, fmt.Sprintf("%s: decoder allocates and asks the reader for %d bytes (cap %d) on a %s image", who, o.maxRead, decoderCap, d.class)})
+	if o.maxRead > allocBound {
+		vs = append(vs, viol{"decode:read-beyond-1MiB-cap:" + d.class, fmt.Sprintf("%s: decoder allocates and asks the reader for %d bytes (cap %d) on a %s image (%s)", who, o.maxRead, decoderCap, d.class, d.desc)})
 	}
 	if o.stuck {
 		vs = append(vs, viol{"decode:no-progress:" + d.class, fmt.Sprintf("%s: decoder does not reach end-of-log within %d calls", who, o.calls)})
@@ -336,7 +340,14 @@ func checkRead(L *layout, d damage, o readOut, from int, who string) []viol {
 				key += ":file-boundary-inside-record"
 			}
 		}
-		vs = append(vs, viol{key, fmt.Sprintf("%s: %d intact records precede the damage (%s) but only %d were replayed before the reader stopped with %q", who, want, d.desc, got, o.firstStop)})
+		what := fmt.Sprintf("%s: %d intact records precede the damage (%s) but only %d were replayed before the reader stopped with %q", who, want, d.desc, got, o.firstStop)
+		if d.none {
+			what = fmt.Sprintf("%s: undamaged log (%s) of %d records, %d expected from this reader, but only %d were replayed before it stopped with %q", who, d.desc, len(L.recs), want, got, o.firstStop)
+			if i := from + got; i < len(L.recs) {
+				what += fmt.Sprintf("; the next record (%s) has a payload of %d bytes", L.recs[i].desc, len(L.recs[i].payload))
+			}
+		}
+		vs = append(vs, viol{key, what})
 	}
 	return vs
 }
